@@ -147,8 +147,7 @@ def gen_acts(rng, rs, cfg, nacts=80, p_act=0.35, kinds=None, small_buffers=True)
                 depth = max(0, depth - 1)
             ops.append('start')
         elif kind == 'top':
-            if depth > 0:
-                ops.append('top')
+            ops.append('top')        # (on an empty stack yy_top_state() returns the current start condition)
         elif kind == 'return':
             ops.append('return:%d' % rng.randrange(1, 100))
             nret += 1
